@@ -78,6 +78,24 @@ Fixpoint expected_reload (t : gty) (v : gval) {struct t} : gval :=
   | _, _ => v
   end.
 
+(* the generated description erases exactly the declared fields: an exported field is tagged "-"
+   iff it is declared in-memory only (checked on Gen by the proofs) *)
+Fixpoint erasure_ok (t : gty) {struct t} : bool :=
+  match t with
+  | TPtr t' => erasure_ok t'
+  | TStruct sname fs =>
+      (fix go (l : list (fmeta * gty)) : bool :=
+         match l with
+         | [] => true
+         | (m, t') :: r =>
+             (if f_exported m
+              then Bool.eqb (f_skip m) (is_memory_only sname (f_go m))
+                   && (if f_skip m then true else erasure_ok t')
+              else true) && go r
+         end) fs
+  | _ => true
+  end.
+
 (* equality of swap data: a nil and an empty byte slice are the same data *)
 Fixpoint same_data (a b : gval) {struct a} : bool :=
   match a, b with
